@@ -18,7 +18,7 @@ def cases(ctx):
     thorough = ctx.tier == 'thorough'
     rng = ctx.rng
     for i in range(300 if not thorough else 4000):
-        G = gen.random_cfg(rng, cnf=True, nvars=rng.randint(1, 4))
+        G = gen.random_cfg(rng, cnf=True, nvars=rng.randint(1, 4), multichar=rng.random() < 0.3)
         Sig = sorted(G['Sigma']) or ['a']
         ws = [w for w in gen.all_words(Sig, 4 if len(Sig) <= 2 else 3)]
         if len(ws) > 14:
@@ -26,7 +26,7 @@ def cases(ctx):
         if not thorough or ctx.mine(i):
             yield {'kind': 'cnf', 'G': G, 'words': ws}
     for i in range(300 if not thorough else 4000):
-        G = gen.random_cfg(rng, maxlen=3)
+        G = gen.random_cfg(rng, maxlen=3, multichar=rng.random() < 0.3)
         Sig = sorted(G['Sigma']) or ['a']
         ws = gen.all_words(Sig, 4 if len(Sig) <= 2 else 3)
         if len(ws) > 14:
